@@ -359,7 +359,7 @@ def failingExt : ExtOps :=
     compileEval := fun _ _ => .err (.builtin "unsupported")
     vectorPush := fun _ _ _ => .err .expectedType }
 
-example : ExtLaws failingExt :=
+theorem failingExt_laws : ExtLaws failingExt :=
   ⟨fun _ _ _ _ _ => rfl, fun _ _ _ _ _ _ _ _ _ _ _ _ => .err, fun _ _ _ _ _ _ _ _ _ _ _ => .err,
    fun _ _ _ _ _ _ _ _ _ _ _ _ => .err⟩
 
